@@ -181,6 +181,7 @@ def dry_runs():
                                   o0=o0, o1=1, o2=0)
         yield 'S1_pty_fate', dict(code=3, sig=9, core=True, signaled=True, exit_at=None, ign_hup=True, ign_int=True,
                                   o0=4, o1=o0, o2=0)
+    yield 'S1_pty_fate', dict(code=3, sig=9, core=False, signaled=False, exit_at=None, ign_hup=True, ign_int=True, o0=2, o1=0, o2=1)
     yield 'S2_popen_wait', dict(rc=-9)
     yield 'S3_run_exitstatus', dict(code=5, sig=1, signaled=False, withexit=True, tneg=False, exit_at=0)
 
